@@ -66,3 +66,170 @@ pub fn c18_combine_and_or() {
     chk!(hk::timelock_combine_or(a, b) == reference(1, &[a, b]), "combine_or = threshold 1 of 2");
     cover!(hk::timelock_combine_and(a, b).contains_combination && !a.contains_combination && !b.contains_combination, "new conflict");
 }
+
+// ---- translation validation of the policy transformations (generated cases) ----------------
+
+/// atom-array policy node: (kind, atom, k, n); kind 0 unsat, 1 trivial, 2 atom, 6 thresh
+pub type AP = [(u8, u8, u8, u8)];
+
+pub struct Filter {
+    pub kind: u8,
+    pub value: u32,
+    pub result: &'static AP,
+    pub expected: &'static AP,
+}
+pub struct Entail {
+    pub answer: u8,
+    pub witness: u16,
+    pub p: &'static AP,
+    pub q: &'static AP,
+}
+pub struct PolCase {
+    pub name: &'static str,
+    pub natoms: u8,
+    pub kinds: [u8; 12],
+    pub keymask: u16,
+    pub p: &'static AP,
+    pub norm: &'static AP,
+    pub sorted: &'static AP,
+    pub filters: &'static [Filter],
+    pub entails: &'static [Entail],
+    pub distinct_keys: bool,
+    pub min_keys: i32,
+    pub min_witness: u16,
+    pub has_concrete: bool,
+    pub lift_refused: bool,
+    pub lifted: &'static AP,
+    pub timelock_err: bool,
+    pub timelock_witness: u16,
+    /// conflict witness when unsatisfiable children are treated as empty paths
+    pub timelock_dead_witness: u16,
+}
+
+pub fn eval_ap(p: &AP, mask: u16) -> bool {
+    let mut st = [false; 12];
+    let mut sp = 0usize;
+    let mut i = 0;
+    while i < p.len() {
+        let nd = p[i];
+        let v = match nd.0 {
+            0 => false,
+            1 => true,
+            2 => (mask >> nd.1) & 1 == 1,
+            _ => {
+                let mut c = 0u8;
+                let mut j = 0;
+                while j < nd.3 {
+                    sp -= 1;
+                    if st[sp] {
+                        c += 1;
+                    }
+                    j += 1;
+                }
+                c >= nd.2
+            }
+        };
+        st[sp] = v;
+        sp += 1;
+        i += 1;
+    }
+    st[0]
+}
+
+fn popcount(x: u16) -> i32 {
+    let mut c = 0;
+    let mut i = 0;
+    while i < 12 {
+        if (x >> i) & 1 == 1 {
+            c += 1;
+        }
+        i += 1;
+    }
+    c
+}
+
+#[cfg(not(kani))]
+fn note(c: &PolCase) { eprintln!("  policy {}", c.name); }
+#[cfg(kani)]
+fn note(_: &PolCase) {}
+
+/// All statements of C18 about one policy, over every assignment to its atoms.
+pub fn tv(c: &PolCase) {
+    note(c);
+    let mask = sym::u16_();
+    sym::assume(mask < (1u16 << c.natoms));
+    let v = eval_ap(c.p, mask);
+    cover!(true, "case evaluated");
+    chk!(eval_ap(c.norm, mask) == v, "normalized() changes the truth table");
+    chk!(eval_ap(c.sorted, mask) == v, "sorted() changes the truth table");
+    let mut i = 0;
+    while i < c.filters.len() {
+        let f = &c.filters[i];
+        chk!(eval_ap(f.result, mask) == eval_ap(f.expected, mask), "at_age / at_lock_time is not the restriction to the locks met at that age / time");
+        i += 1;
+    }
+    let mut i = 0;
+    while i < c.entails.len() {
+        let e = &c.entails[i];
+        if e.answer == 1 {
+            chk!(!eval_ap(e.p, mask) || eval_ap(e.q, mask), "entails() says yes but some assignment satisfies p and not q");
+        } else if e.answer == 0 {
+            #[cfg(not(kani))]
+            if !(e.witness != 0xffff && eval_ap(e.p, e.witness) && !eval_ap(e.q, e.witness)) {
+                eprintln!("    entails(p={:?}, q={:?}) answered no, witness {}", e.p, e.q, e.witness);
+            }
+            chk!(e.witness != 0xffff && eval_ap(e.p, e.witness) && !eval_ap(e.q, e.witness), "entails() says no but every assignment satisfying p satisfies q");
+        }
+        i += 1;
+    }
+    if c.distinct_keys {
+        if c.min_keys < 0 {
+            chk!(!v, "minimum_n_keys() says unsatisfiable but an assignment satisfies the policy");
+        } else {
+            chk!(!v || popcount(mask & c.keymask) >= c.min_keys, "a satisfying assignment uses fewer signatures than minimum_n_keys()");
+            chk!(c.min_witness != 0xffff && eval_ap(c.p, c.min_witness) && popcount(c.min_witness & c.keymask) == c.min_keys, "no satisfying assignment uses exactly minimum_n_keys() signatures");
+        }
+    }
+    if c.has_concrete {
+        if !c.lift_refused {
+            chk!(eval_ap(c.lifted, mask) == v, "lifting the concrete policy changes the truth table");
+        }
+        // mixed time locks: a minimal satisfying assignment containing a height- and a time-based lock of one kind
+        let mut minimal = v;
+        let (mut ah, mut at, mut oh, mut ot) = (false, false, false, false);
+        let mut b = 0;
+        while b < 12 {
+            if b < c.natoms as usize && (mask >> b) & 1 == 1 {
+                if eval_ap(c.p, mask & !(1 << b)) {
+                    minimal = false;
+                }
+                match c.kinds[b] {
+                    2 => ah = true,
+                    3 => at = true,
+                    4 => oh = true,
+                    5 => ot = true,
+                    _ => {}
+                }
+            }
+            b += 1;
+        }
+        let conflict = (ah && at) || (oh && ot);
+        if c.timelock_err {
+            #[cfg(not(kani))]
+            if c.timelock_witness == 0xffff {
+                eprintln!("    check_timelocks fires without a conflicting minimal path: {}", c.name);
+            }
+            if c.timelock_witness == 0xffff {
+                if c.timelock_dead_witness != 0xffff {
+                    chk!(false, "check_timelocks() fires although the only height/time conflict lies on an unsatisfiable branch");
+                } else {
+                    chk!(false, "check_timelocks() fires but no spending path (k children of every threshold) needs a height- and a time-based lock of the same kind");
+                }
+            }
+            chk!(c.timelock_witness == 0xffff || eval_ap(c.p, c.timelock_witness), "time-lock conflict witness must satisfy the policy");
+            chk!(c.lift_refused, "lift() must refuse a concrete policy whose time-lock check fires");
+        } else {
+            chk!(!(minimal && conflict), "check_timelocks() is silent but a satisfying path needs a height- and a time-based lock of the same kind");
+        }
+    }
+}
